@@ -26,7 +26,9 @@ func rulesC16(c *Ctx) {
 	R.Rule("R3", "mint quote: invoice + insert only behind the amount and balance limits (overflow-checked)", 5)
 	R.Rule("R4", "melt quote: insert only behind the melt amount limit on the stored amount", 1)
 	R.Rule("R5", "info: disabled exactly when max balance set and balance >= max; computed afresh per request", 3)
+	R.Rule("R6", "the issued total counts only what was handed out: swap stores signatures only after the spent-table insert succeeded (shared with C01.R3)", 1)
 	c.vocabProblems("R1")
+	c.ruleSigsAfterSpent("R6")
 
 	// ---- R1
 	if sc := c.V.Schema; sc == nil {
